@@ -265,7 +265,7 @@ def count_obligations(modules):
     return names, qed
 
 
-def coq_make(jobs=16, timeout=3000, clean=False):
+def coq_make(jobs=16, timeout=3000, clean=False, modules=None):
     """Full .vo build (make -k) of coq/.  Returns (ok, logtext)."""
     with Lock("coqmake"):
         gen_coqproject()
@@ -276,7 +276,11 @@ def coq_make(jobs=16, timeout=3000, clean=False):
                 os.path.getmtime(os.path.join(COQ, "_CoqProject")) > os.path.getmtime(os.path.join(COQ, "Makefile.coq")):
             subprocess.run(["coq_makefile", "-f", "_CoqProject", "-o", "Makefile.coq"], cwd=COQ,
                            check=True, stdout=subprocess.DEVNULL)
-        r = subprocess.run(["timeout", str(timeout), "make", "-k", "-f", "Makefile.coq", "-j%d" % jobs],
+        targets = []
+        if modules:
+            targets = [os.path.relpath(path_of(m), COQ)[:-2] + ".vo" for m in modules
+                       if os.path.exists(path_of(m))]
+        r = subprocess.run(["timeout", str(timeout), "make", "-k", "-f", "Makefile.coq", "-j%d" % jobs] + targets,
                            cwd=COQ, stdout=subprocess.PIPE, stderr=subprocess.STDOUT, text=True)
         return r.returncode == 0, r.stdout
 
